@@ -116,7 +116,7 @@ EXPORT char *_stpcpy_s_chk(char *restrict dest, rsize_t dmax,
     }
     if (unlikely(dmax == 0)) {
         invoke_safe_str_constraint_handler("stpcpy_s: dmax is 0", (void *)dest,
-                                           ESNULLP);
+                                           ESZEROL);
         *errp = RCNEGATE(ESZEROL);
         return NULL;
     }
